@@ -4,6 +4,6 @@ for P in "$@"; do
   for d in /tmp/wt/out-$P/m*.diff /tmp/wt/out-$P/extra_m*.diff; do
     [ -f "$d" ] || continue
     echo "== $P $(basename $d)"
-    Q=$(echo $P | sed "s/[bc]$//"); Q=${Q%c}; /verif/tools/mutrun.sh run $d $Q
+    Q=$(echo $P | sed "s/[bcd]$//"); Q=${Q%c}; /verif/tools/mutrun.sh run $d $Q
   done
 done
